@@ -517,8 +517,84 @@ def run_chol(ctx, cuqi, thorough):
             if U.shape != R.shape or np.abs(U - R).max() > 1e-12 * max(1.0, np.abs(R).max()):
                 ctx.disagree(key, desc, str(R.tolist())[:160], str(U.tolist())[:160], "sparse_cholesky differs from the exact factor")
                 oracle_factor(key, desc, U, A, 1e-9)
+
+    def stream_S():
+        # (D3) GMRF._sample, zero boundary: the generator is scripted so that w = xi / sqrt(d) is rational; the draw must be
+        # mean + prec^(-1/2) * y with L^T y = w exactly (model: backSubst), i.e. R (s - mean) sqrt(prec) = xi
+        class Scripted:
+            def __init__(self, arr): self.arr = arr; self.calls = 0
+            def standard_normal(self, size=None):
+                self.calls += 1
+                a = self.arr
+                want = (size,) if isinstance(size, (int, np.integer)) else tuple(size)
+                if a.shape != want:
+                    raise AssertionError(f"scripted generator asked for {want}, script has {a.shape}")
+                return a.copy()
+        sjobs = []
+        for _ in range(24 if not thorough else 300):
+            pd = 1 if rng.rand() < 0.7 else 2
+            order = int(rng.randint(0, 3))
+            n = int(rng.randint(2, 10)) if pd == 1 else int(rng.randint(2, 4))
+            dim = n if pd == 1 else n * n
+            N = 1 if rng.rand() < 0.6 else int(rng.randint(2, 4))
+            W = rng.randint(-8, 9, size=(dim, N)) / 4.0
+            prec = float(rng.choice([0.25, 1.0, 4.0, 0.7, 3.0]))
+            mean = rng.randint(-3, 4, size=dim).astype(float)
+            sjobs.append((pd, order, n, dim, N, W, prec, mean))
+        lines = []
+        for pd, order, n, dim, N, W, prec, mean in sjobs:
+            lines.append(f"cholP {pd} {order} zero {n} 0")
+            for c in range(N):
+                lines.append(f"sample0 {pd} {order} {n} {qv(W[:, c])}")
+        outs = yield lines
+        k = 0
+        for pd, order, n, dim, N, W, prec, mean in sjobs:
+            fac = outs[k]; ys = outs[k + 1:k + 1 + N]; k += 1 + N
+            desc = {"gmrf": f"{pd}D", "order": order, "bc": "zero", "n": n, "N": N, "prec": prec, "mean": mean.tolist(), "w": W.tolist()}
+            ctx.case("gmrf-sample-zero", {kk: desc[kk] for kk in ("gmrf", "order", "n", "N", "prec")} | {"w0": W[:, 0].tolist()})
+            cov["sample_N"] = cov.get("sample_N", {}); cov["sample_N"][str(N)] = cov["sample_N"].get(str(N), 0) + 1
+            key = f"GMRF:{pd}D:order{order}:zero:sample"
+            if fac in ("err", "refused") or any(y in ("err", "refused", "bad-op") for y in ys):
+                raise RuntimeError("C20 driver refused a zero-boundary factor / sample (machinery error)")
+            R, _ = model_R(fac)
+            dsq = np.diag(R).copy()                       # sqrt(d)
+            Y = []
+            for y in ys:
+                v, ok = [t.strip() for t in y.split("|")]
+                if ok != "1":
+                    raise RuntimeError("C20 driver: L^T y != w for a back substitution it returned (machinery error)")
+                Y.append([float(t) for t in pv(v)])
+            Y = np.array(Y).T                              # (dim, N)
+            xi = W * dsq[:, None]
+            fake = Scripted(xi)
+            try:
+                with quiet():
+                    G = GMRF(mean.copy(), prec, bc_type="zero", order=order, **({} if pd == 1 else {"geometry": Image2D((n, n))}))
+                    P = dense(G._prec_op.get_matrix())
+                    smp = G.sample(N, rng=fake)
+                    got = np.asarray(smp.samples if hasattr(smp, "samples") else smp, float).reshape(dim, N)
+            except Exception as e:
+                ctx.disagree(key, desc, "a draw", repr(e)[:160], "sampling refused / failed")
+                ctx.fail(key, desc, "a draw", repr(e)[:160], "a zero-boundary GMRF cannot be sampled")
+                continue
+            ref = mean[:, None] + Y / math.sqrt(prec)
+            if fake.calls != 1 or not mclose(got, ref, 1e-10):
+                ctx.disagree(key, desc, str(ref.tolist())[:200], str(got.tolist())[:200], "draw differs from mean + prec^(-1/2) R^(-1) xi of the model")
+                # oracle on the implementation alone (any square root is allowed): feed the unit vectors, recover the linear map
+                # W = ds/dxi, demand W W^T = (prec P)^(-1) -- "the draw has precision prec*P"
+                try:
+                    with quiet():
+                        if N == 1:      # the single-draw branch of the code, one unit vector per call
+                            Wm = np.stack([np.asarray(G.sample(1, rng=Scripted(np.eye(dim)[:, [c]])), float).ravel() - mean for c in range(dim)], axis=1)
+                        else:
+                            Wm = np.asarray(G.sample(dim, rng=Scripted(np.eye(dim))).samples, float).reshape(dim, dim) - mean[:, None]
+                    if not mclose(prec * (Wm @ Wm.T) @ P, np.eye(dim), 1e-8):
+                        ctx.fail(key, desc, "W W^T = (prec P)^(-1) for the linear map W = d(sample)/d(xi)", str((prec * (Wm @ Wm.T) @ P).tolist())[:200],
+                                 "the covariance of the draw is not the inverse of the precision")
+                except Exception as e:
+                    ctx.fail(key, desc, "a draw", repr(e)[:160], "a zero-boundary GMRF cannot be sampled with unit-vector noise")
     ctx.extra_cov["c20_chol"] = cov
-    return [stream_D1(), stream_D2()]
+    return [stream_D1(), stream_D2(), stream_S()]
 
 
 def run_apply(ctx, cuqi, thorough):
